@@ -72,6 +72,9 @@ type World struct {
 	byObj   map[*types.Func]*Func
 	overlay map[string][]byte
 	env     []string
+	// set by the normalisation pass: rewritten file -> per line, the position in the working tree it stems from
+	lineMaps map[string][]origPos
+	norm     *normLog
 
 	prog    *ssa.Program
 	ssaPkgs map[string]*ssa.Package
@@ -252,6 +255,9 @@ func (w *World) Pos(p token.Pos) string {
 		return "-"
 	}
 	q := w.Fset.Position(p)
+	if lm, ok := w.lineMaps[q.Filename]; ok && q.Line >= 1 && q.Line <= len(lm) {
+		q.Filename, q.Line = lm[q.Line-1].File, lm[q.Line-1].Line
+	}
 	rel, err := filepath.Rel(w.Repo, q.Filename)
 	if err != nil || strings.HasPrefix(rel, "..") {
 		rel = q.Filename
